@@ -552,11 +552,20 @@ func doBinaryOp(a constant.Value, tok token.Token, b constant.Value, ctx []*inte
 			panic(fmt.Errorf("invalid shift count: cannot convert type %v to type uint", ctx[1].Type))
 		}
 		if s, exact := constant.Int64Val(b); exact {
-			return constant.Shift(a, tok, uint(s))
+			if s < 0 {
+				panic(errors.New("invalid shift count: negative shift count"))
+			}
+			if s <= maxConstShiftCount {
+				return constant.Shift(a, tok, uint(s))
+			}
 		}
 		panic(errors.New("shift count too large (overflow)"))
 	}
 }
+
+// maxConstShiftCount bounds the count of a constant shift; it is the bound
+// go/types applies (shiftBound), so the smallest float64 can still be expressed.
+const maxConstShiftCount = 1023 - 1 + 52
 
 const (
 	binaryOpNormal = iota
